@@ -34,7 +34,7 @@ def component_table() -> dict[int, list[tuple[int, int, tuple[int, ...], str]]]:
                 got = []
                 for w in (1, 2, 4):
                     try:
-                        n, b = obj.encode(type(obj.value)(probe[w]) if False else probe[w])
+                        n, b = obj.encode(probe[w])
                         if n == w and len(b) == w:
                             got.append(w)
                     except Exception:
